@@ -105,6 +105,25 @@ class HookFault(Exception):
     pass
 
 
+class FalsyOpError(OpError):
+    """An exception object whose bool() is False (e.g. an empty aggregate error)."""
+
+    def __len__(self):
+        return 0
+
+
+class HybridCancelled(asyncio.CancelledError, RuntimeError):
+    """Derives from a cancellation type *and* from Exception."""
+
+
+class HybridExit(SystemExit, RuntimeError):
+    pass
+
+
+class HybridInterrupt(KeyboardInterrupt, RuntimeError):
+    pass
+
+
 class Val:
     __slots__ = ("n", "fail", "ra", "asked")
 
@@ -229,7 +248,10 @@ DEFAULT_CFG = {
                                  # policy.circuit_breaker (1 deviation)
     "rc_mode": "pure",           # "oneshot": the result classifier gives its verdict once per object;
                                  # asked again about the same object it says "success" (None)
-    "strat_obj": False,          # strategies are objects exposing record_success / record_failure
+    "strat_obj": False,
+    "rec_durs": [0],             # ticks spent inside the strategy object's record_failure (menu)
+    "abort_kind": "method",      # "falsy-object": abort_if is a callable object whose bool() is False
+    "ok_awaitable": False,       # async: a successful attempt returns an awaitable *object* (a handle)          # strategies are objects exposing record_success / record_failure
     "loop": False,               # async entry points run as Tasks on the virtual event loop
     "attempt_timeout": None,     # ticks: attempt_timeout_s (sync: owned executor; async: needs loop)
     "nest": None,                # {"site": "aend"|"metric"|"strategy", "entry": ..., "script": [...]}:
@@ -271,6 +293,7 @@ class World:
         self.susp_after_throw = False
         self._last_op_exc = None
         self._abort_flag = False
+        self._in_async_op = False
         self._none_class = None
         self._repointed = None
         self._nesting = False
@@ -529,6 +552,9 @@ class World:
                 world.trace.append(("strategy_rec", name, "success"))
 
             def record_failure(self, klass=None):
+                rd = world.cfg["rec_durs"]
+                if len(rd) > 1:
+                    E.advance(rd[world.ch.choose("recdur", len(rd))] * TAU)
                 world.trace.append(("strategy_rec", name, "failure", klass_name(klass)))
 
         return StrategyObject()
@@ -718,6 +744,14 @@ class World:
         self.maybe_flip("op")   # the abort condition may become true while the attempt runs
 
     def _op_finish(self, n, label, t0, t1):
+        if label == "ok" and self.cfg["ok_awaitable"] and self._in_async_op:
+            inner = Val(n)
+
+            async def _inner():
+                return inner
+            v = AwaitObj(_inner)   # the attempt's result *is* this handle object
+            self._rec_op(("op", n, label, t0, t1, self.reg(v)))
+            return v
         if label == "ok":
             v = Val(n)
             self._rec_op(("op", n, label, t0, t1, self.reg(v)))
@@ -732,6 +766,30 @@ class World:
             v = Val(n, fail=k, ra=self.cfg["ra_ticks"] if ra else None)
             self._rec_op(("op", n, label, t0, t1, self.reg(v)))
             return v
+        if kind == "xc":
+            # a fallback failing inside `except CircuitOpenError:` (implicit exception chaining)
+            exc = OpError(f"op{n}:{rest}")
+            exc.spec = (rest, None)
+            code = STATUS_FOR.get(rest)
+            if code is not None:
+                exc.status = code
+            self._rec_op(("op", n, "x:" + rest, t0, t1, self.reg(exc)))
+            try:
+                raise CircuitOpenError("open")
+            except CircuitOpenError:
+                _raise_here(exc)
+        if kind == "xf":
+            exc = FalsyOpError(f"op{n}:{rest}")
+            exc.spec = (rest, None)
+            code = STATUS_FOR.get(rest)
+            if code is not None:
+                exc.status = code
+            self._rec_op(("op", n, "x:" + rest, t0, t1, self.reg(exc)))
+            _raise_here(exc)
+        if kind == "hyb":
+            exc = {"cancel": HybridCancelled, "exit": HybridExit, "kbd": HybridInterrupt}[rest]()
+            self._rec_op(("op", n, rest, t0, t1, self.reg(exc)))
+            _raise_here(exc)
         if kind == "x" and rest.endswith("@") and self._last_op_exc is not None:
             # the operation raises the very same exception object again (e.g. a cached failure)
             exc = self._last_op_exc
@@ -782,6 +840,7 @@ class World:
         return self._op_finish(n, label, t0, t1)
 
     async def op_async(self):
+        self._in_async_op = True
         if self.loop is not None:
             n, label, t0, d = self._op_body(advance=False)
             try:
@@ -854,7 +913,18 @@ class World:
         if cfg["operation"]:
             kw["operation"] = cfg["operation"]
         if cfg["abort"]:
-            kw["abort_if"] = self.abort_if
+            if cfg["abort_kind"] == "falsy-object":
+                world = self
+
+                class StopToken:
+                    def __bool__(self):
+                        return False
+
+                    def __call__(self):
+                        return world.abort_if()
+                kw["abort_if"] = StopToken()
+            else:
+                kw["abort_if"] = self.abort_if
         if not deco:
             if cfg["handler"] in ("call", "both"):
                 kw["sleep"] = self.make_handler("call")
@@ -935,10 +1005,19 @@ class World:
         elif base in ("RetryPolicySet", "AsyncRetryPolicySet"):
             # the wrapper is built bare and configured by attribute assignment afterwards
             cls = AsyncRetryPolicy if is_async else RetryPolicy
+            from datetime import timedelta
             kw = self._retry_kwargs(is_async, with_attempt_hooks=False)
             late = {k: kw.pop(k) for k in ("result_classifier", "sleep", "before_sleep", "sleeper",
                                            "budget") if k in kw}
+            true_deadline = kw["deadline_s"]
+            true_m, true_mu = kw["max_attempts"], kw["max_unknown_attempts"]
+            true_pc = kw.pop("per_class_max_attempts", None)
+            kw.update(deadline_s=60.0, max_attempts=6, max_unknown_attempts=None)
             obj = cls(**kw)
+            obj.deadline = timedelta(seconds=true_deadline)
+            obj.max_attempts = true_m
+            obj.max_unknown_attempts = true_mu
+            obj.per_class_max_attempts = dict(true_pc or {})
             for k, val in late.items():
                 setattr(obj, k, val)
             if self.breaker is not None:
